@@ -21,12 +21,16 @@ CLAIMED = {
  "C12": ("proof", "Theorems C12_*: exact characterisation of the selected node set by reachability in the full graph (under the property's hypothesis on excluded nodes), ValueError iff conditions, subset/NoDup. K-graph: executor graphs for random (R, X, T) through id / tag / reference aliases incl. error paths, executed node sets.", "6 C12"),
  "C13": ("proof", "Theorems C13_*: flag off => no debug node in executor / call / setup graphs; flag on => call runs all, pulled debug nodes have all inputs in the executed graph; values of non-debug nodes identical in both settings (SelectSpec.debug_does_not_change_values). K-graph under both settings.", "6 C13"),
  "C15": ("proof", "Theorem C15_den_precompute: replacing nodes by their already-computed values (the only state an instance keeps: setup results) changes no value and no failure, for every table / configuration; with C11 (what is kept) this is 'the k-th call equals the call on a fresh instance'. K-hist: histories with different argument tuples, omitted defaults, executors, failing calls and failing executor runs followed by a re-run, then one more call compared with a freshly built DAG.", "6 C15"),
+ "C16": ("proof", "PARTIAL. Theorems C16_* over an interleaving model of the build lock and the 'am I describing?' decision: for every set of thread programs and every interleaving each thread observes exactly what it observes alone (builds, calls of finished DAGs, calls of decorated functions outside a DAG); DAGs built concurrently are identical to sequential builds; at most one builder; the pinned commit's predicate is refuted by a machine-checked witness (F8, fixed). Tied by K-thread: real threads stepped by barriers through random interleavings vs the model, and concurrent calls of one DAG with distinct arguments. Atomic actions are Python-level calls; CPython-internal data races are outside.", "6 C16"),
+ "C17": ("proof", "PARTIAL. Theorems C17_*: any two complete runs of the scheduler (both flavours run the same coroutine; no flavour parameter in the model) store the same values and start / skip the same nodes; with only async-thread nodes no scheduler step blocks the loop thread, in general only main-thread nodes and waits on thread-resource nodes do. Tied by K-async (both flavours of every generated function: value, executed nodes; gathered concurrent awaits) and a liveness monitor (a node completing only after a sibling coroutine ran). The event loop is not modelled.", "6 C17"),
  "C18": ("proof", "Theorems C18_*: a restart never executes a node whose result is in the file; same selection => nothing runs; cache_deps_of=D => file = results minus D, restart executes exactly D. Value equality via C15_den_precompute. K-hist: caching runs / restarts incl. cache_deps_of, executed sets and unpickled key sets. pickle fidelity trusted.", "6 C18"),
  "C19": ("proof", "Theorems C19_*: (embedding theorem) every node of the composed DAG denotes what it denotes in the original pipeline with the input nodes overridden; the composed node set is exactly inputs + outputs + what the outputs need, never behind an input; ValueError iff input-ancestor-of-input or an undeclared required DAG parameter is needed. compose() itself is tied on every run: node set / errors vs Compose.v, embed_check evaluated in coqc on the composed and original tables, the composed DAG's value vs a plain-Python evaluation with the input statements overridden, and the original DAG's value and table before / after composing.", "6 C19"),
  "C20": ("proof", "Theorems C20_* (embedding theorem): if the inner DAG with its parameters bound is embedded in the outer DAG's table through the id prefix, every inner node denotes in the outer DAG what it denotes in the inner one (same value, same failures), for every value type and any depth; with C01 this is inlining. The embedding relation itself is evaluated in coqc (IsoCheck.embed_check) on the real inner and outer tables of every generated nesting (depth <= 3, all signatures / call forms / return shapes), plus K-value against the plain-Python reference. F10 / F12 are known findings (loud build-time refusals).", "6 C20"),
  "C14": ("proof", "Theorems C14_*: the run ends with the first inspected failure, nothing accepted afterwards, no transitive dependent of a failed/unfinished node ever started, removals always target graph roots (no internal error). Exception wrapping (node id, location, cause) checked by the monitor on every failing run.", "6 C14"),
 }
 NOTES = {
+ "C16": "trusted: Coq kernel + vm_compute; Threads.v (atomic Python-level actions, GIL); harness turn-taking barriers; setup nodes run before sharing a DAG between threads.",
+ "C17": "trusted: as C01; asyncio event loop semantics not modelled (liveness monitored on real loops).",
  "C19": "trusted: as C20; alias resolution (unique alias, Ellipsis) exercised through node ids only in the generated cases.",
  "C20": "trusted: as C01 plus Iso.v / IsoCheck.v (that the executable embed_check implies the Prop embeds is not proved: the checker is part of the harness side of the trusted base); prefix renaming supplied by the harness from the ids tawazi produced.",
  "C11": "trusted: Coq kernel + vm_compute; History.v / Select.v models; harness; setup node functions pure. Axioms: none.",
@@ -41,6 +45,8 @@ NOTES = {
 TECH = "Coq proof over an executable scheduler LTS + trace-acceptance correspondence (vm_compute in coqc) against controlled runs of the real code"
 
 TECHS = {
+ "C16": "Coq proof over an interleaving model of the build lock + barrier-stepped real threads compared with the model",
+ "C17": "Coq proof (runs are flavour-independent; where the loop can block) + both-flavour differential correspondence and loop-liveness monitor",
  "C19": "Coq proof (embedding preserves denotations; characterisation of the composed node set) + the embedding relation and node set evaluated in coqc on the tables compose() builds + differential correspondence against plain Python with overrides",
  "C20": "Coq proof (embedding of node tables preserves denotations) + the embedding relation evaluated in coqc on the tables tawazi builds for nested DAGs + differential correspondence against plain Python",
  "C11": "Coq proof over a set-level history model composed with the scheduler theorems + history correspondence on real DAG instances",
